@@ -38,7 +38,7 @@ func init() {
 	}})
 }
 
-func (p *c18) NumCases(tier string, seed int64) int { return tierN(tier, 500, 12000) }
+func (p *c18) NumCases(tier string, seed int64) int { return tierN(tier, 2500, 180000) }
 
 // ---------------------------------------------------------------- schema model
 
